@@ -74,6 +74,16 @@ func (i *IPPool) LookupOrAllocIP(seid uint64) (net.IP, error) {
 	return ipVal, nil
 }
 
+// Holds tells whether an address is allocated to the session.
+func (i *IPPool) Holds(seid uint64) bool {
+	i.mu.Lock()
+	defer i.mu.Unlock()
+
+	_, ok := i.inventory[seid]
+
+	return ok
+}
+
 func (i *IPPool) DeallocIP(seid uint64) error {
 	i.mu.Lock()
 	defer i.mu.Unlock()
